@@ -12,10 +12,12 @@ CONSTANTS
   Ends = {"close", "forget", "abandon"}
   Writers = TRUE
   MaxOps = 2
+  Rereads = FALSE
   Parking = FALSE
   ResetOnOpen = FALSE
   ResetOnStart = TRUE
   RegisterOnReach = FALSE
+  RegisterBeforeWrite = FALSE
   EndChecksOnError = FALSE
   LogCalls = FALSE
 INVARIANT TypeOK
